@@ -86,6 +86,8 @@ fn lines() {
             "seg" => segfile::run_seg(&toks[1..]),
             "sgo" => segfile::run_sgo(&toks[1..]),
             "pubs" => segfile::run_pubs(&toks[1..]),
+            "pubr" => segfile::run_pubr(&toks[1..]),
+            "lng" => segfile::run_lng(&toks[1..]),
             "pol" => poller::run(&toks[1..]),
             "polt" => poller::run_timed(&toks[1..]),
             "wld" => world::run(&toks[1..]),
